@@ -136,6 +136,14 @@ func progText(g string, h Host, rank int) string {
 		return `{{ .Values.s1.state | default "unset" }}`
 	case "MUT": // mutates the elements of a list that comes from the chart's default values
 		return `{{ range .Values.ports }}{{ $_ := set . "name" (printf "%s-%s" $.Release.Name .name) }}{{ end }}{{ (index .Values.ports 0).name }}`
+	case "FCFG": // two chart files with the same base name in different directories
+		return `{{ (.Files.Glob "conf/**").AsConfig }}`
+	case "FSEC":
+		return `{{ (.Files.Glob "conf/**").AsSecrets }}`
+	case "FGLOB2":
+		return `{{ range $p, $_ := .Files.Glob "conf/**" }}{{ $p }};{{ end }}`
+	case "LOOK": // an object that exists in every simulated cluster the harness connects a render to
+		return `{{ lookup "v1" "Secret" "ns" "probe" | len }}`
 	case "CAPV":
 		return `{{ .Capabilities.KubeVersion.Version }}`
 	case "CAPA": // an API version that only an --api-versions option could add
@@ -269,6 +277,8 @@ func ChartFiles(c Case, f Fmt, h Host) []*loader.BufferedFile {
 		add(pre+"values.yaml", fmt.Sprintf("x: v-%s\nt: 'T[{{ include \"shared\" . }}]'\nt2: 'U[{{ tpl .Values.t . }}]'\nports:\n- name: http\n", ch))
 		add(pre+"files/a.txt", "F-"+ch)
 		add(pre+"files/b.txt", "G-"+ch)
+		add(pre+"conf/a/x.txt", "XA-"+ch)
+		add(pre+"conf/b/x.txt", "XB-"+ch)
 		if c.Schema != "" && c.Schema != "none" && c.SchemaAt == ch {
 			add(pre+"values.schema.json", schemaJSON(c.Schema, h))
 		}
